@@ -47,6 +47,37 @@ def table(ctx, path):
     return k["value"]
 
 
+def _checked_lookup(r, is_c, poly_of, Poly):
+    """(static path, base) when r is Option::unwrap_or(Option::copied|cloned(<[T]>::get(TABLE, c - base)), c)."""
+    def call(e, *names):
+        e = strip_casts(e)
+        if e[0] == "call" and any(e[1].endswith("::" + n) for n in names):
+            return e[2]
+        return None
+    a = call(r, "unwrap_or")
+    if not a or len(a) != 2 or not is_c(a[1]):
+        return None
+    inner = strip_casts(a[0])
+    b = call(inner, "copied", "cloned")
+    if b and len(b) == 1:
+        inner = strip_casts(b[0])
+    g = call(inner, "get")
+    if not g or len(g) != 2:
+        return None
+    base_e = peel(g[0])
+    while base_e[0] in ("ref", "deref"):
+        base_e = peel(base_e[1])
+    if base_e[0] != "static":
+        return None
+    idx = poly_of(g[1], lambda x: "c" if is_c(x) else None)
+    if idx.has_opaque():
+        return None
+    off = idx - Poly.atom("c")
+    if off.atoms():
+        return None
+    return base_e[1], -int(off.t.get((), 0))
+
+
 def extract_dispatch(ctx):
     """Decision-list extraction of `normalize`: [(lo, hi, 'id' | ('table', static_path, base))].
     Every flow-sensitive decision path of the (loop-free) body is turned into the interval of scalars that takes it
@@ -114,6 +145,19 @@ def extract_dispatch(ctx):
                     base = -int(off.t.get((), 0))
                     out.append((lo, hi, ("table", base_e[1], base)))
                     continue
+        # checked lookup with the character itself as fallback: TABLE.get(c - base).copied().unwrap_or(c)
+        # = TABLE[c - base] for c - base < len(TABLE) (the constant table's own length), c beyond it
+        chk = _checked_lookup(r, is_c, poly_of, Poly)
+        if chk is not None:
+            path, base = chk
+            n = len(table(ctx, path))
+            if lo >= base:
+                if lo <= min(hi, base + n - 1):
+                    out.append((lo, min(hi, base + n - 1), ("table", path, base)))
+                if hi >= base + n:
+                    out.append((max(lo, base + n), hi, "id"))
+                continue
+            # c < base: the subtraction `c - base` underflows (panic in debug builds, huge offset otherwise)
         raise Inconclusive("normalize: leaf %s is neither `c` nor TABLE[c - base]" % show(res)[:160])
     out.sort()
     # merge adjacent intervals with the same leaf
